@@ -13,6 +13,15 @@
 //   rxnstep <n> <inc> <step> <fraction>   xsolution_zero; incremental_reactions = inc; add_reaction(Rxn_reaction_map[n], step, fraction)
 //                            -> "X <step_x> H:<total_h_x> O:<total_o_x> name:total ..."
 //   kinstep <n> <inc> <step>   Rxn_kinetics_map[n].Current_step(inc, step)        -> "K <value>"
+//   mbstate                  balance rows (MB, MH, MH2O, CB, PP, EXCH, SURFACE unknowns) of the last solved model
+//   drive <inc> <nsteps> <kind> <n> ...   the loop of reactions() driven from here on the real parts (set_use, copy_use(-2),
+//                            set_initial_moles, run_reactions, saver) with two observation points per step:
+//                            "B 0 <hex raw>"  the -2 entities after copy_use (state before step 1)
+//                            "A <step> <rc> H:<total_h_x> O:<total_o_x> Charge:<cb_x> elt:<master total> ... | pp name:moles ... | ss name:moles ... | kt elt:val ..."
+//                                 = what step() leaves for the solver (own call of set_reaction + step(1.0), pp/ss restored afterwards)
+//                            "B <step> <hex raw>"  dump_raw of the -2 entities after saver()
+//                            "drive end" | "drive error <hex text>"       kinds: solution mix exchange surface gas_phase
+//                            equilibrium_phases solid_solutions kinetics reaction
 #ifndef CPPUNIT
 #define CPPUNIT 1
 #endif
@@ -20,6 +29,14 @@
 #include "Phreeqc.h"
 #include "Reaction.h"
 #include "cxxKinetics.h"
+#include "Solution.h"
+#include "Exchange.h"
+#include "Surface.h"
+#include "GasPhase.h"
+#include "PPassemblage.h"
+#include "SSassemblage.h"
+#include "SS.h"
+#include "cxxMix.h"
 #include "hx.hpp"
 #include <map>
 #include <memory>
@@ -97,6 +114,122 @@ public:
     e->xsolution_zero();
     e->count_elts = 0; e->paren_count = 0;
   }
+  template <class T> static void dump1(std::ostringstream& o, std::map<int, T>& m, int n) {
+    typename std::map<int, T>::iterator it = m.find(n);
+    if (it != m.end()) { int key = n; it->second.dump_raw(o, 0, &key); }
+  }
+  static std::string raw2(Phreeqc* e) {
+    std::ostringstream o;
+    dump1(o, e->Rxn_solution_map, -2); dump1(o, e->Rxn_exchange_map, -2); dump1(o, e->Rxn_surface_map, -2);
+    dump1(o, e->Rxn_gas_phase_map, -2); dump1(o, e->Rxn_pp_assemblage_map, -2); dump1(o, e->Rxn_ss_assemblage_map, -2);
+    dump1(o, e->Rxn_kinetics_map, -2); dump1(o, e->Rxn_reaction_map, -2); dump1(o, e->Rxn_mix_map, -2);
+    return o.str();
+  }
+  static void obsA(Phreeqc* e, int step, int use_mix) {
+    // what step() hands to the solver, observed by an own call on the -2 entities; pure phases / solid solutions restored
+    bool has_pp = e->Rxn_pp_assemblage_map.find(-2) != e->Rxn_pp_assemblage_map.end() && e->use.Get_pp_assemblage_in();
+    bool has_ss = e->Rxn_ss_assemblage_map.find(-2) != e->Rxn_ss_assemblage_map.end() && e->use.Get_ss_assemblage_in();
+    cxxPPassemblage pp_save; cxxSSassemblage ss_save;
+    if (has_pp) pp_save = e->Rxn_pp_assemblage_map[-2];
+    if (has_ss) ss_save = e->Rxn_ss_assemblage_map[-2];
+    e->set_reaction(-2, use_mix, e->use.Get_kinetics_in() ? TRUE : FALSE);
+    int rc = e->step(1.0);
+    std::cout << "A " << step << " " << rc << " " << hx::hex("H") << ":" << hx::hexd((double)e->total_h_x) << " " << hx::hex("O") << ":"
+              << hx::hexd((double)e->total_o_x) << " " << hx::hex("Charge") << ":" << hx::hexd((double)e->cb_x);
+    for (size_t i = 0; i < e->master.size(); ++i) {
+      if (e->master[i]->total == 0.0) continue;
+      if (e->master[i]->s == e->s_hplus || e->master[i]->s == e->s_h2o) continue;
+      if (e->master[i]->elt->primary != e->master[i]) continue;
+      std::cout << " " << hx::hex(e->master[i]->elt->name) << ":" << hx::hexd((double)e->master[i]->total);
+    }
+    std::cout << " | pp";
+    if (has_pp && e->use.Get_pp_assemblage_ptr()) {
+      std::map<std::string, cxxPPassemblageComp>& c = e->use.Get_pp_assemblage_ptr()->Get_pp_assemblage_comps();
+      for (std::map<std::string, cxxPPassemblageComp>::iterator it = c.begin(); it != c.end(); ++it)
+        std::cout << " " << hx::hex(it->first) << ":" << hx::hexd((double)it->second.Get_moles());
+    }
+    std::cout << " | ss";
+    if (has_ss && e->use.Get_ss_assemblage_ptr()) {
+      std::vector<cxxSS*> v = e->use.Get_ss_assemblage_ptr()->Vectorize();
+      for (size_t i = 0; i < v.size(); ++i)
+        for (size_t j = 0; j < v[i]->Get_ss_comps().size(); ++j)
+          std::cout << " " << hx::hex(v[i]->Get_ss_comps()[j].Get_name()) << ":" << hx::hexd((double)v[i]->Get_ss_comps()[j].Get_moles());
+    }
+    std::cout << " | kt";
+    if (e->use.Get_kinetics_ptr()) {
+      cxxNameDouble& t = e->use.Get_kinetics_ptr()->Get_totals();
+      for (cxxNameDouble::iterator it = t.begin(); it != t.end(); ++it) std::cout << " " << hx::hex(it->first) << ":" << hx::hexd((double)it->second);
+    }
+    std::cout << "\n";
+    if (has_pp) e->Rxn_pp_assemblage_map[-2] = pp_save;
+    if (has_ss) e->Rxn_ss_assemblage_map[-2] = ss_save;
+  }
+  static void drive(IPhreeqc* ip, const std::vector<std::string>& w) {
+    Phreeqc* e = ip->PhreeqcPtr;
+    int inc = atoi(w[1].c_str()), nsteps = atoi(w[2].c_str());
+    try {
+      e->use.init();
+      for (size_t k = 3; k + 1 < w.size(); k += 2) {
+        int n = atoi(w[k + 1].c_str());
+        const std::string& kind = w[k];
+        if (kind == "solution") { e->use.Set_solution_in(true); e->use.Set_n_solution_user(n); }
+        else if (kind == "mix") { e->use.Set_mix_in(true); e->use.Set_n_mix_user(n); }
+        else if (kind == "exchange") { e->use.Set_exchange_in(true); e->use.Set_n_exchange_user(n); }
+        else if (kind == "surface") { e->use.Set_surface_in(true); e->use.Set_n_surface_user(n); }
+        else if (kind == "gas_phase") { e->use.Set_gas_phase_in(true); e->use.Set_n_gas_phase_user(n); }
+        else if (kind == "equilibrium_phases") { e->use.Set_pp_assemblage_in(true); e->use.Set_n_pp_assemblage_user(n); }
+        else if (kind == "solid_solutions") { e->use.Set_ss_assemblage_in(true); e->use.Set_n_ss_assemblage_user(n); }
+        else if (kind == "kinetics") { e->use.Set_kinetics_in(true); e->use.Set_n_kinetics_user(n); }
+        else if (kind == "reaction") { e->use.Set_reaction_in(true); e->use.Set_n_reaction_user(n); }
+      }
+      e->state = REACTION;
+      e->incremental_reactions = inc;
+      int err0 = e->get_input_errors();
+      if (e->set_use() == FALSE) { std::cout << "drive nouse\n"; return; }
+      if (nsteps <= 0) {                        // count_steps as reactions() computes it
+        nsteps = 1;
+        if (e->use.Get_reaction_in() && e->use.Get_reaction_ptr() && e->use.Get_reaction_ptr()->Get_reaction_steps() > nsteps)
+          nsteps = e->use.Get_reaction_ptr()->Get_reaction_steps();
+        if (e->use.Get_kinetics_in() && e->use.Get_kinetics_ptr() && e->use.Get_kinetics_ptr()->Get_reaction_steps() > nsteps)
+          nsteps = e->use.Get_kinetics_ptr()->Get_reaction_steps();
+      }
+      e->count_total_steps = nsteps;
+      e->copy_use(-2);
+      e->rate_sim_time_start = 0; e->rate_sim_time = 0;
+      std::cout << "B 0 " << hx::hex(raw2(e)) << "\n";
+      for (e->reaction_step = 1; e->reaction_step <= nsteps; e->reaction_step++) {
+        e->overall_iterations = 0;
+        if (e->reaction_step > 1 && inc == FALSE) e->copy_use(-2);
+        e->set_initial_moles(-2);
+        LDBLE kin_time = 0.0;
+        if (e->use.Get_kinetics_in()) {
+          cxxKinetics* k = Utilities::Rxn_find(e->Rxn_kinetics_map, -2);
+          kin_time = k->Current_step(inc != 0, e->reaction_step);
+        }
+        int use_mix = (inc == FALSE || e->reaction_step == 1) ? TRUE : FALSE;
+        obsA(e, e->reaction_step, use_mix);
+        e->run_reactions(-2, kin_time, use_mix, 1.0);
+        if (inc) { e->rate_sim_time_start += kin_time; e->rate_sim_time = e->rate_sim_time_start; } else e->rate_sim_time = kin_time;
+        e->saver();
+        if (e->get_input_errors() != err0) { std::cout << "drive error " << hx::hex(ip->GetErrorString()) << "\n"; return; }
+        std::cout << "B " << e->reaction_step << " " << hx::hex(raw2(e)) << "\n";
+      }
+      std::cout << "drive end " << hx::hex(ip->GetWarningString()) << "\n";
+    } catch (...) {
+      std::cout << "drive error " << hx::hex(ip->GetErrorString()) << "\n";
+    }
+  }
+  static void mbstate(IPhreeqc* ip) {
+    // balance rows of the last solved model: "M <hex description> <type> <moles = target> <f = sum over species> <delta>"
+    Phreeqc* e = ip->PhreeqcPtr;
+    for (size_t i = 0; i < e->count_unknowns; ++i) {
+      class unknown* u = e->x[i];
+      if (u->type == MB || u->type == MH || u->type == MH2O || u->type == CB || u->type == PP || u->type == EXCH || u->type == SURFACE)
+        std::cout << "M " << hx::hex(u->description ? u->description : "") << " " << u->type << " " << hx::hexd((double)u->moles) << " "
+                  << hx::hexd((double)u->f) << " " << hx::hexd((double)u->delta) << "\n";
+    }
+    std::cout << "M end\n";
+  }
   static void kinstep(IPhreeqc* ip, int n, int inc, int step) {
     Phreeqc* e = ip->PhreeqcPtr;
     std::map<int, cxxKinetics>::iterator it = e->Rxn_kinetics_map.find(n);
@@ -155,6 +288,10 @@ int main() {
         }
         std::cout << "\n";
       }
+    } else if (op == "drive") {
+      if (failed) std::cout << "drive skipped\n"; else TestIPhreeqc::drive(ip.get(), w);
+    } else if (op == "mbstate") {
+      TestIPhreeqc::mbstate(ip.get());
     } else if (op == "rxnstep") {
       TestIPhreeqc::rxnstep(ip.get(), atoi(w[1].c_str()), atoi(w[2].c_str()), atoi(w[3].c_str()), hx::unhexd(w[4]));
     } else if (op == "kinstep") {
